@@ -1184,4 +1184,10 @@ impl PlayPhase {
     pub fn hash_history(&self) -> &List<Zobrist> {
         &self.hash_history
     }
+
+    /// Verification hook: the hash recorded at the start of the current turn.
+    #[cfg(feature = "verif_hooks")]
+    pub fn verif_initial_hash_of_move(&self) -> Zobrist {
+        self.initial_hash_of_move
+    }
 }
